@@ -399,6 +399,7 @@ Proof.
   - destruct (find_proc _ w) as [p|]; [|discriminate]. inv_binds Hc. inversion Hc; subst. exact H.
   - destruct (find_proc _ w) as [p|]; [|discriminate]. inversion Hc; subst. exact H.
   - inversion Hc; subst. exact H.
+  - inv_binds Hc. inversion Hc; subst. exact H.
 Qed.
 
 (** Main theorem (C13 for the whole system model): after ANY history of operations - client
